@@ -315,3 +315,33 @@ def monomial(e: ast.expr, leaf: Callable[[ast.expr], Optional[str]]) -> Optional
                 return None
             return {k: v / 2 for k, v in a.items()}
     return None
+
+
+# ---------------------------------------------------------------------------------------------
+# orientation-independent text of an expression
+# ---------------------------------------------------------------------------------------------
+
+
+class _CanonCmp(ast.NodeTransformer):
+    def visit_Compare(self, n: ast.Compare):
+        self.generic_visit(n)
+        if len(n.ops) != 1:
+            return n
+        op = type(n.ops[0])
+        left, right = n.left, n.comparators[0]
+        if op in (ast.Gt, ast.GtE):
+            return ast.copy_location(ast.Compare(left=right, ops=[_FLIP[op]()], comparators=[left]), n)
+        if op in (ast.Eq, ast.NotEq) and unparse(left) > unparse(right):
+            return ast.copy_location(ast.Compare(left=right, ops=[op()], comparators=[left]), n)
+        return n
+
+
+def canon_unparse(node: ast.AST) -> str:
+    """``ast.unparse`` after normalising the orientation of every simple comparison (``a > b`` ->
+    ``b < a``; operands of ==/!= sorted), without whitespace: two expressions that differ only by
+    swapped comparison operands get the same text."""
+    if node is None:
+        return ""
+    tree = _CanonCmp().visit(copy.deepcopy(node))
+    ast.fix_missing_locations(tree)
+    return unparse(tree).replace(" ", "")
